@@ -920,12 +920,15 @@ def warm_other_bus_during_await(order=('A', 'B'), gap=None, prelude=False):
     return cfg
 
 
-def timeout_bystander():
+def timeout_bystander(two_handlers=False):
     """an unrelated root event X1 with a slow handler is queued behind the timed parent P1; P's handler awaits a child, which (on
     this tree, F0) runs X1 inline first; P's time-out can fire while X1's handler runs.  X1 is nobody's child: it must still
     complete (with an error result) and an external await on it must return."""
     handlers = [['A', 'P', 'hP', [['dispawait', 'A', 'C', 'C1'], ['sleep', 'd1'], ['ret', 'p']]], ['A', 'C', 'hC', [['sleep', 'd2'], ['ret', 'c']]],
                 ['A', 'X', 'hX', [['sleep', 'd3'], ['ret', 'x']]], ['A', 'L', 'hL', [['ret', 'l']]]]
+    if two_handlers:
+        # the bystander has a second handler that has not started when the time-out hits
+        handlers.append(['A', 'X', 'hX2', [['ret', 'x2']]])
     main = [['root', 'A', 'P', 'P1'], ['root', 'A', 'X', 'X1'], ['await', 'X1'], ['obs', 'after_await', 'X1'], ['root', 'A', 'L', 'L1'], ['await', 'P1'], ['idle', 'A'], ['obs_all', 'end']]
     return dict(buses=['A'], reals={'d1': ['0', '3/5'], 'd2': ['0', '3/5'], 'd3': ['0', '3/5']}, handlers=handlers, main=main, timeouts={'P1': '1/4'}, T='1/4', horizon=6)
 
